@@ -100,6 +100,7 @@ def run(check, prog):
     editor_table(check, prog)
     tie(check, prog)
     writer_table(check, prog)
+    xarray_map(check, prog)
     # "applies the transformations": a derived prior must denote the arithmetic
     # that was written (shared rule with C14)
     from . import c14
@@ -1238,3 +1239,103 @@ def writer_table(check, prog):
                   fail_detail='returns %s; add_parameter calls under %s' % (
                       show(v)[:160], [[(show(t)[:60], pl) for t, pl in c['cond']]
                                       for c in adds]))
+
+
+def xarray_map(check, prog):
+    """G10: a labelled-array parameter keeps each value with its own label.
+
+    map_xarray writes [make_xarray, [dim, keys, values_map]]; the reader rebuilds
+    DataArray(values, coords=[keys]).  The i-th mapped value must therefore belong
+    to the i-th key: either the values are selected *by key* (any key order), or
+    they are taken in the array's storage order and the keys are the array's own
+    coordinate labels in that same order."""
+    from hpstatic.logic import resolve
+    q = MAP + 'Mapper.map_xarray'
+    fd = prog.func(q)
+    loc = prog.loc(q, fd)
+    it = Interp(prog, max_depth=1, opaque=[MAP + 'Mapper.iterate_mapping'])
+    v = it.analyze(q).ret
+    me, par, name = [sym(a.arg) for a in fd.args.args[:3]]
+    dim = intern(('idx', ('attr', par, 'dims'), num(0)))
+    ok = v[0] == 'list' and len(v[1]) == 2 and \
+        v[1][0] == ('funcref', MAP + 'make_xarray') and v[1][1][0] == 'list' and \
+        len(v[1][1][1]) == 3 and v[1][1][1][0] == dim
+    check.require(ok, 'G10-xarray-map-aligned', 'Mapper.map_xarray',
+                  'writes [make_xarray, [first dimension, keys, mapped values]]', loc,
+                  fail_detail='returns %s' % show(v)[:160])
+    if not ok:
+        return
+    K, Mv = v[1][1][1][1], v[1][1][1][2]
+    coordv = [intern(('attr', ('idx', ('attr', par, 'coords'), dim), 'values')),
+              intern(('attr', ('idx', par, dim), 'values'))]
+    own_order = [intern(('call', ('attr', c, 'tolist'), (), ())) for c in coordv] + \
+        [intern(('call', 'list', (c,), ())) for c in coordv]
+    ok = Mv[0] == 'call' and Mv[1] == ('attr', me, 'iterate_mapping') and \
+        len(Mv[2]) == 2 and Mv[2][1][0] == 'call' and Mv[2][1][1] == 'zip' and \
+        len(Mv[2][1][2]) == 2 and Mv[2][1][2][0] == K and \
+        Mv[2][0] == ('bin', '+', name, ('const', '.'))
+    check.require(ok, 'G10-xarray-map-aligned', 'Mapper.map_xarray mapped values',
+                  'the values are mapped pairwise with the keys that are written, under '
+                  'names "<name>.<key>"', loc, fail_detail='values map: %s' % show(Mv)[:200])
+    if not ok:
+        return
+    V = Mv[2][1][2][1]
+    one = intern(('cmp', '==', ('call', 'len', (('attr', par, 'dims'),), ()), num(1)))
+    bad = []
+    for flat in (True, False):
+        val = resolve(V, lambda t: flat if t == one else None)
+        if any(x[0] == 'ite' for x in subterms(val)):
+            bad.append('undecided for %s' % ('1-d' if flat else 'n-d'))
+            continue
+        by_key = val[0] == 'comp' and val[1] == 'list' and len(val[3]) == 1 and \
+            val[3][0][1] == K and not val[3][0][2]
+        if by_key:
+            e = val[3][0][0]
+            sel = val[2]
+            want = intern(('dict', ((dim, e),)))
+            by_key = (sel[0] == 'idx' and sel[1] == ('attr', par, 'loc') and sel[2] == want) \
+                or (sel[0] == 'call' and sel[1] == ('attr', par, 'sel') and
+                    sel[2] == (want,) and not sel[3])
+        storage = val in (intern(('attr', par, 'values')),
+                          intern(('call', 'list', (('attr', par, 'values'),), ())),
+                          intern(('call', 'list', (par,), ())))
+        if not (by_key or (storage and flat and K in own_order)):
+            bad.append('%s array: values %s with keys %s' % (
+                '1-d' if flat else 'n-d', show(val)[:80], show(K)[:80]))
+    check.require(not bad, 'G10-xarray-map-aligned', 'Mapper.map_xarray pairing',
+                  'value i belongs to key i: selected by key, or storage order with the '
+                  "array's own labels in storage order", loc, fail_detail='; '.join(bad))
+    # the reader's constructor keeps the pairing
+    q2 = MAP + 'make_xarray'
+    fd2 = prog.func(q2)
+    it2 = Interp(prog, max_depth=1)
+    r = it2.analyze(q2).ret
+    dn, ks, vs = [sym(a.arg) for a in fd2.args.args[:3]]
+    good = True
+    leaves = []
+
+    def walk(t):
+        if t[0] == 'ite':
+            walk(t[2]); walk(t[3])
+        else:
+            leaves.append(t)
+    walk(r)
+    for leaf in leaves:
+        if leaf[0] == 'call' and leaf[1] == 'xarray.concat':
+            d = dict(leaf[3]).get('dim', leaf[2][1] if len(leaf[2]) > 1 else None)
+            good &= leaf[2][0] == vs and d is not None and d[0] == 'call' and \
+                d[1] == 'xarray.DataArray' and d[2] and d[2][0] == ks
+        elif leaf[0] == 'call' and leaf[1] == 'xarray.DataArray':
+            k = dict(leaf[3])
+            co = k.get('coords', leaf[2][1] if len(leaf[2]) > 1 else None)
+            data = leaf[2][0]
+            while data[0] == 'call' and data[1] in ('numpy.array', 'numpy.asarray') and data[2]:
+                data = data[2][0]
+            good &= data == vs and co is not None and (
+                co == ('list', (ks,)) or co == ('dict', ((dn, ks),)))
+        else:
+            good = False
+    check.require(good and leaves, 'G10-xarray-map-aligned', 'make_xarray',
+                  'rebuilds the array from the values with the keys as the labels of the '
+                  'new dimension, in the same order', prog.loc(q2, fd2),
+                  fail_detail='returns %s' % show(r)[:200])
